@@ -174,11 +174,27 @@ def run(ctx):
     r2b = ctx.rule("R20.2b", "the partition arrays are stored sorted by _Set_partitioned_data (every consumer pairs them with connect through searchsorted)", min_instances=1)
     fsetp = repo.cls(GE).methods["_Set_partitioned_data"]
     r2b.instance(fn=fsetp.qualname)
-    _PD.clear()
-    if partition_data_sorted(repo) == "sorted":
-        r2b.ok("elements, ghostElements, nodes, ghostNodes are np.sort(...) before being stored")
+    # interpreted on a group of nodes {1, 2, 4, 5, 7} with every input in descending order (the sortedness used to be a
+    # provenance judgement over np.sort(...) calls, which fired on a boolean-mask rewrite, refactored/C20-R3)
+    from ..xeval import Interp as _I20, XObj as _X20, XRaise as _XR20
+    from ..xarray import XArray as _A20
+
+    ge_ci = repo.cls(GE)
+    gnodes = _A20((5,), [1, 2, 4, 5, 7], "i")
+    o = _X20(ge_ci, {ge_ci.mangle("__connect"): _A20((3, 3), [1, 2, 4, 2, 4, 5, 4, 5, 7], "i"), ge_ci.mangle("__nodes"): gnodes, "nodes": gnodes})
+    try:
+        _I20(repo).call_function(fsetp, [_A20((2,), [2, 0], "i"), _A20((3,), [7, 1, 4], "i"), 1, _A20((1,), [1], "i")], self_obj=o)
+        pd = o.attrs.get(ge_ci.mangle("__partitionned_data"))
+        if pd is None:
+            pd = _I20(repo).call_function(repo.lookup_method(ge_ci, "_Get_partitioned_data"), [], self_obj=o)
+        got = [[int(x) for x in _A20.from_nested(a).data] for a in list(pd)[1:5]]
+    except _XR20 as e:
+        got = e
+    want = [[0, 2], [1], [1, 4, 7], [2, 5]]
+    if got == want:
+        r2b.ok("elements, ghostElements, nodes, ghostNodes are stored ascending for inputs given in descending order")
     else:
-        r2b.fail(fsetp.qualname, "stored-sorted", fsetp.file, fsetp.lineno, "_Set_partitioned_data", "one of the partition index arrays is stored without being sorted: Mesher builds them from python sets (hash order) and searchsorted against them returns wrong rows silently")
+        r2b.fail(fsetp.qualname, "stored-sorted", fsetp.file, fsetp.lineno, "_Set_partitioned_data", f"group nodes [1, 2, 4, 5, 7], elements [2, 0], owned nodes [7, 1, 4], ghost elements [1]: the stored (elements, ghostElements, nodes, ghostNodes) are {got}, expected {want} (ascending: every consumer pairs them with connect through searchsorted; ghost nodes = group nodes that are not owned)")
 
     # (R20.3 ghost-layer shape, R20.5 node ownership and R20.6 ghost scope were syntactic rules over the statements of
     # __Get_partitioned_groupElems: they raised false alarms on behaviour-preserving rewrites (np.any(...) for .any(...),
